@@ -451,6 +451,11 @@ def report(chk: Check, case, case_seed: int, diff, problems, impl, model) -> Non
                      "action = obs + 1000, next_obs = obs + 8; cells are obs,action,reward,next_obs,done",
               "correspondence": "harness/c10.py vs Model/NStep.lean (fixed = true)",
               "theorems": chk.gate["theorems"]}
+    seen = chk.__dict__.setdefault("_c10_reported", [])
+    if small in seen:                       # shrinks to a failure that is already reported
+        chk.notes.append("another failing case shrinks to the replay already reported")
+        return
+    seen.append(small)
     if problems:
         chk.violation((p2 or problems)[0], replay)
     else:
